@@ -21,7 +21,9 @@ def run(tier, replay):
     bins = V.build(["dbt"], work)
     nontrivial = set()
     modes = [("ttl", c.seed, [6])] if tier == "quick" else [("ttl", c.seed * 100 + i, [60]) for i in range(4)]     # the argument: seeded random variations
-    dbtrace.CLASSES["C19"] = ("expire:", "expire", "reload:")
+    # "state:": the calls that build the scenarios must leave the TTL definitions as they were created (a definition that
+    # silently loses its interval makes every later pass look right)
+    dbtrace.CLASSES["C19"] = ("expire:", "expire", "reload:", "state:")
     dbtrace.run_modes(c, "C19", bins, work, modes, nontrivial)
     c.cov["rule"] = ("5 index sets x 2 rounds x 2 namespaces with a pool of 20 value shapes per TTL field, plus 4 TTL collections with nothing to expire, 2 passes each, and one "
                      "run of the background loop; distinct_nontrivial counts distinct (call kind, failed?, state changed?, events?) tuples incl. the expire passes")
